@@ -13,6 +13,7 @@ import (
 	"encoding/binary"
 	"encoding/json"
 	"fmt"
+	"io"
 	"time"
 
 	"github.com/blevesearch/mmap-go"
@@ -136,6 +137,12 @@ func ScanFooter(options *StoreOptions, fref *FileRef, fileName string,
 	pos int64) (*Footer, error) {
 	footerBeg := make([]byte, footerBegLen)
 
+	finfo, err := fref.file.Stat()
+	if err != nil {
+		return nil, err
+	}
+	fileSize := finfo.Size()
+
 	// Align pos to the start of a page (floor).
 	pos = pageAlignFloor(pos)
 
@@ -145,8 +152,10 @@ func ScanFooter(options *StoreOptions, fref *FileRef, fileName string,
 				return nil, ErrNoValidFooter
 			}
 
+			// A short read, when the file ends right after pos, is
+			// not a failure: there is simply no footer at this pos.
 			n, err := fref.file.ReadAt(footerBeg, pos)
-			if err != nil {
+			if err != nil && err != io.EOF {
 				return nil, err
 			}
 
@@ -160,7 +169,9 @@ func ScanFooter(options *StoreOptions, fref *FileRef, fileName string,
 			pos -= int64(StorePageSize)
 		}
 
-		// Read and check the potential footer.
+		// Read and check the potential footer.  Anything that does not
+		// check out is not a footer (a torn write, or data that merely
+		// looks like the magic), so the scan continues further back.
 		footerBegBuf := bytes.NewBuffer(footerBeg[2*lenMagicBeg:])
 
 		var version uint32
@@ -168,8 +179,8 @@ func ScanFooter(options *StoreOptions, fref *FileRef, fileName string,
 			return nil, err
 		}
 		if version != StoreVersion {
-			return nil, fmt.Errorf("store: version mismatch, "+
-				"current: %v != found: %v", StoreVersion, version)
+			pos -= int64(StorePageSize)
+			continue
 		}
 
 		var length uint32
@@ -177,10 +188,16 @@ func ScanFooter(options *StoreOptions, fref *FileRef, fileName string,
 			return nil, err
 		}
 
+		if int64(length) < int64(footerBegLen+footerEndLen) ||
+			int64(length) > fileSize-pos {
+			pos -= int64(StorePageSize)
+			continue
+		}
+
 		data := make([]byte, int64(length)-int64(footerBegLen))
 
 		n, err := fref.file.ReadAt(data, pos+int64(footerBegLen))
-		if err != nil {
+		if err != nil && err != io.EOF {
 			return nil, err
 		}
 
@@ -196,8 +213,8 @@ func ScanFooter(options *StoreOptions, fref *FileRef, fileName string,
 				return nil, err
 			}
 			if offset != pos {
-				return nil, fmt.Errorf("store: offset mismatch, "+
-					"wanted: %v != found: %v", offset, pos)
+				pos -= int64(StorePageSize)
+				continue
 			}
 
 			var length1 uint32
@@ -205,15 +222,16 @@ func ScanFooter(options *StoreOptions, fref *FileRef, fileName string,
 				return nil, err
 			}
 			if length1 != length {
-				return nil, fmt.Errorf("store: length mismatch, "+
-					"wanted: %v != found: %v", length1, length)
+				pos -= int64(StorePageSize)
+				continue
 			}
 
 			f := &Footer{refs: 1, fileName: fileName, filePos: offset}
 
 			err = json.Unmarshal(data[:content], f)
 			if err != nil {
-				return nil, err
+				pos -= int64(StorePageSize)
+				continue
 			}
 
 			// json.Unmarshal would have just loaded the map.
